@@ -111,6 +111,20 @@ def regenerate_tables():
     if old != r.stdout:
         open(path, 'w').write(r.stdout)
     regenerate_doc_tables()
+    regenerate_quote_idents()
+    return True
+
+
+def regenerate_quote_idents():
+    """Q: the identifiers the expander writes, read off the templates of its source text (bin/quote_idents.py) and written
+    as a Lean file; Props/QuoteIdents.lean proves them admissible for the hygiene theorem."""
+    r = sh([sys.executable, f'{VERIF}/bin/quote_idents.py', REPO], timeout=120)
+    path = f'{LEAN}/DeriveExModel/Generated/QuoteIdents.lean'
+    if r.returncode != 0 or 'namespace DX.Generated' not in r.stdout:
+        return False
+    old = open(path).read() if os.path.exists(path) else ''
+    if old != r.stdout:
+        open(path, 'w').write(r.stdout)
     return True
 
 
@@ -194,17 +208,21 @@ def audit_theorems(prop, modules_theorems):
     """#print axioms for every property theorem; returns (results, log).
     results: list of dict(name, ok, axioms, why)."""
     os.makedirs(f'{WORK}/audit', exist_ok=True)
-    path = f'{WORK}/audit/{prop}.lean'
     names = []
-    with open(path, 'w') as f:
-        for mod, ths in modules_theorems:
-            f.write(f'import {mod}\n')
-        for mod, ths in modules_theorems:
-            for t in ths:
-                f.write(f'#print axioms {t}\n')
-                names.append(t)
-    r = sh(['lake', 'env', 'lean', path], cwd=LEAN, timeout=1200)
-    out = r.stdout + r.stderr
+    # one file per module: a module that no longer builds must not make the theorems of the others look broken
+    paths = []
+    with open(f'{WORK}/audit/{prop}.lean', 'w') as whole:
+        whole.write(''.join(f'import {mod}\n' for mod, _ in modules_theorems))
+        for k, (mod, ths) in enumerate(modules_theorems):
+            path = f'{WORK}/audit/{prop}.{k}.lean'
+            body = ''.join(f'#print axioms {t}\n' for t in ths)
+            open(path, 'w').write(f'import {mod}\n' + body)
+            whole.write(body)
+            paths.append(path)
+            names += ths
+    with cf.ThreadPoolExecutor(8) as ex:
+        rs = list(ex.map(lambda p: sh(['lake', 'env', 'lean', p], cwd=LEAN, timeout=1200), paths))
+    out = ''.join(r.stdout + r.stderr for r in rs)
     results = []
     for t in names:
         short = t
